@@ -58,7 +58,7 @@ CfgOK(c) ==
     /\ (HasBases(c) => Len(c.bases) = c.N /\ Len(ZSeq(c)) >= 1)   \* precondition: >= 1 all-Z row
     /\ (c.type = "positive" => ~HasBases(c))
     /\ (c.type # "positive" => HasBases(c))      \* complex / mixed states refuse to train without bases
-    /\ c.again \in {"no", "keep", "clear", "keepStop"}
+    /\ c.again \in {"no", "keep", "clear", "keepStop", "abort"}
     /\ (c.again # "no" => \A i \in 1..NCb(c) : c.cbs[i].t # "early")
     /\ NCb(c) >= 1 /\ \E i \in 1..NCb(c) : c.cbs[i].t = "rec"
 
@@ -132,13 +132,26 @@ Below(d, rec) ==
 RECURSIVE Dispatch(_, _, _, _, _, _, _, _, _)
 Dispatch(c, kind, e, bi, pv, i, st, cs, acc) ==
     \* acc = [ev |-> events so far, injAt |-> index of the callback that injects (0 = none)]
-    IF i > NCb(c) THEN [stop |-> st, ev |-> acc.ev, cbs |-> cs]
+    IF i > NCb(c) THEN [stop |-> st, ev |-> acc.ev, cbs |-> cs, raised |-> FALSE]
     ELSE LET d == c.cbs[i] IN
       CASE d.t = "rec" ->
+             IF acc.raiseAt = i
+             THEN \* the user's callback sees the event and raises: the rest of the list is not called, the
+                  \* exception leaves fit() (the "RZ" pseudo-event is what the raising callback itself logs)
+                  [stop |-> st, cbs |-> cs, raised |-> TRUE,
+                   ev |-> acc.ev \o <<CbEv(kind, e, bi, i, st, pv, FALSE),
+                                      [k |-> "RZ", kk |-> kind, ep |-> e, b |-> bi, cb |-> i]>>]
+             ELSE
              Dispatch(c, kind, e, bi, pv, i + 1, st \/ (acc.injAt = i), cs,
                       [acc EXCEPT !.ev = Append(@, CbEv(kind, e, bi, i, st, pv, acc.injAt = i))])
         [] d.t = "eval" ->
-             IF kind = "EE" /\ e % d.period = 0
+             IF kind = "EE" /\ e % d.period = 0 /\ acc.raiseAt = i
+             THEN \* the user's metric function (or the sampling behind an observable) raises during a due
+                  \* evaluation: the evaluation never completed, so it leaves no record behind
+                  [stop |-> st, cbs |-> cs, raised |-> TRUE,
+                   ev |-> acc.ev \o <<[k |-> "EV", cb |-> i, ep |-> e],
+                                      [k |-> "RZ", kk |-> kind, ep |-> e, b |-> bi, cb |-> i]>>]
+             ELSE IF kind = "EE" /\ e % d.period = 0
              THEN Dispatch(c, kind, e, bi, pv, i + 1, st,
                            [cs EXCEPT ![i] = Append(@, <<e, Val(c, e), Var(c, e)>>)],
                            [acc EXCEPT !.ev = Append(@, [k |-> "EV", cb |-> i, ep |-> e])])
@@ -204,22 +217,30 @@ Entry ==
 
 SchedOrEE == IF cfg.sched THEN "SC" ELSE "EE"
 
-\* a CallbackList dispatch of event `kind`; the environment may inject one stop request
-DispatchStep(kind, e, bi, injAt) ==
-    LET r == Dispatch(cfg, kind, e, bi, pver, 1, stop, cbs, [ev |-> <<>>, injAt |-> injAt]) IN
+\* a CallbackList dispatch of event `kind`; the environment may inject one stop request, or (runs with
+\* cfg.again = "abort") make one user callback raise, which ends the run on the spot
+DispatchStep(kind, e, bi, injAt, raiseAt) ==
+    LET r == Dispatch(cfg, kind, e, bi, pver, 1, stop, cbs, [ev |-> <<>>, injAt |-> injAt, raiseAt |-> raiseAt]) IN
     /\ hist' = hist \o r.ev
     /\ stop' = r.stop
     /\ cbs' = r.cbs
     /\ inj' = IF injAt = 0 THEN inj ELSE inj + 1
+    /\ (raiseAt # 0) = r.raised        \* a raise is chosen only where it takes effect (an evaluator that is due)
 
 InjChoices == IF inj < MaxInj /\ ~stop THEN {0} \cup RecIdx(cfg) ELSE {0}
+RaiseChoices == IF cfg.again = "abort"
+                THEN {0} \cup RecIdx(cfg) \cup {i \in 1..NCb(cfg) : cfg.cbs[i].t = "eval"} ELSE {0}
+\* the environment's choice at one dispatch: at most one of the two
+EnvChoices == {<<ia, 0>> : ia \in InjChoices} \cup {<<0, ra>> : ra \in RaiseChoices}
 
 TrainStart ==
     /\ pc = "TS"
-    /\ \E ia \in InjChoices : DispatchStep("TS", -1, -1, ia)
-    /\ IF cfg.startEp <= cfg.epochs
-       THEN pc' = "SH" /\ ep' = cfg.startEp
-       ELSE pc' = "TE" /\ ep' = ep
+    /\ \E x \in EnvChoices :
+          /\ DispatchStep("TS", -1, -1, x[1], x[2])
+          /\ IF x[2] # 0 THEN pc' = "Aborted" /\ ep' = ep
+             ELSE IF cfg.startEp <= cfg.epochs
+             THEN pc' = "SH" /\ ep' = cfg.startEp
+             ELSE pc' = "TE" /\ ep' = ep
     /\ UNCHANGED <<cfg, b, net, pver, sched, perm, negIdx, carry>>
 
 \* _shuffle_data: one randperm, then (paths B, C) one randint; runs BEFORE on_epoch_start
@@ -234,14 +255,12 @@ Shuffle == pc = "SH" /\ \E p \in PermCands(cfg), ni \in NegCands(cfg) : ShuffleW
 
 EpochStart ==
     /\ pc = "ES"
-    /\ \E ia \in InjChoices : DispatchStep("ES", ep, -1, ia)
-    /\ pc' = "BS"
+    /\ \E x \in EnvChoices : DispatchStep("ES", ep, -1, x[1], x[2]) /\ pc' = (IF x[2] # 0 THEN "Aborted" ELSE "BS")
     /\ UNCHANGED <<cfg, ep, b, net, pver, sched, perm, negIdx, carry>>
 
 BatchStart ==
     /\ pc = "BS"
-    /\ \E ia \in InjChoices : DispatchStep("BS", ep, b, ia)
-    /\ pc' = "CG"
+    /\ \E x \in EnvChoices : DispatchStep("BS", ep, b, x[1], x[2]) /\ pc' = (IF x[2] # 0 THEN "Aborted" ELSE "CG")
     /\ UNCHANGED <<cfg, ep, b, net, pver, sched, perm, negIdx, carry>>
 
 \* compute_batch_gradients(k, samples_batch, neg_batch[, bases_batch])
@@ -276,10 +295,12 @@ OptStep ==
 
 BatchEnd ==
     /\ pc = "BE"
-    /\ \E ia \in InjChoices : DispatchStep("BE", ep, b, ia)
-    /\ IF stop' THEN pc' = SchedOrEE /\ b' = b                  \* break
-       ELSE IF b + 1 < NB(cfg) THEN pc' = "BS" /\ b' = b + 1
-       ELSE pc' = SchedOrEE /\ b' = b
+    /\ \E x \in EnvChoices :
+          /\ DispatchStep("BE", ep, b, x[1], x[2])
+          /\ IF x[2] # 0 THEN pc' = "Aborted" /\ b' = b
+             ELSE IF stop' THEN pc' = SchedOrEE /\ b' = b                  \* break
+             ELSE IF b + 1 < NB(cfg) THEN pc' = "BS" /\ b' = b + 1
+             ELSE pc' = SchedOrEE /\ b' = b
     /\ UNCHANGED <<cfg, ep, net, pver, sched, perm, negIdx, carry>>
 
 \* scheduler.step(): once per started epoch, after the batch loop, before on_epoch_end
@@ -292,28 +313,33 @@ SchedStep ==
 
 EpochEnd ==
     /\ pc = "EE"
-    /\ \E ia \in InjChoices : DispatchStep("EE", ep, -1, ia)
-    /\ IF stop' THEN pc' = "TE" /\ ep' = ep                     \* break
-       ELSE IF ep + 1 <= cfg.epochs THEN pc' = "SH" /\ ep' = ep + 1
-       ELSE pc' = "TE" /\ ep' = ep
+    /\ \E x \in EnvChoices :
+          /\ DispatchStep("EE", ep, -1, x[1], x[2])
+          /\ IF x[2] # 0 THEN pc' = "Aborted" /\ ep' = ep
+             ELSE IF stop' THEN pc' = "TE" /\ ep' = ep                     \* break
+             ELSE IF ep + 1 <= cfg.epochs THEN pc' = "SH" /\ ep' = ep + 1
+             ELSE pc' = "TE" /\ ep' = ep
     /\ UNCHANGED <<cfg, b, net, pver, sched, perm, negIdx, carry>>
 
 TrainEnd ==
     /\ pc = "TE"
-    /\ \E ia \in InjChoices : DispatchStep("TE", -1, -1, ia)
-    /\ pc' = "Done"
+    /\ \E x \in EnvChoices : DispatchStep("TE", -1, -1, x[1], x[2]) /\ pc' = (IF x[2] # 0 THEN "Aborted" ELSE "Done")
     /\ UNCHANGED <<cfg, ep, b, net, pver, sched, perm, negIdx, carry>>
 
 \* A second fit() with the same callback objects (cfg.again): the user may clear the
 \* evaluators' history in between ("clear") or not ("keep"), and resets the stop flag unless
 \* "keepStop".  Records of savers / loggers / evaluators accumulate across runs.
+\* "abort": the first run may have been ended by an exception raised in a user callback (pc = "Aborted": no
+\* further event of that run, in particular no train-end); the user catches it and calls fit() again on the same
+\* objects without touching anything - whatever the aborted run left behind is what the next run starts from.
 Restart ==
-    /\ pc = "Done" /\ cfg.again \in {"keep", "clear", "keepStop"}
+    /\ \/ pc = "Done" /\ cfg.again \in {"keep", "clear", "keepStop", "abort"}
+       \/ pc = "Aborted"
     /\ carry' = [hist |-> hist, cbs |-> cbs, stop |-> stop, pver |-> pver, again |-> cfg.again]
     /\ cbs' = [i \in 1..NCb(cfg) |->
                  IF cfg.again = "clear" /\ cfg.cbs[i].t = "eval" THEN <<>> ELSE cbs[i]]
-    /\ stop' = (cfg.again = "keepStop" /\ stop)
-    /\ cfg' = [cfg EXCEPT !.again = "no", !.entryStop = (cfg.again = "keepStop" /\ stop)]
+    /\ stop' = (cfg.again \in {"keepStop", "abort"} /\ stop)
+    /\ cfg' = [cfg EXCEPT !.again = "no", !.entryStop = (cfg.again \in {"keepStop", "abort"} /\ stop)]
     /\ pc' = "Entry" /\ ep' = -1 /\ b' = -1 /\ net' = 0 /\ sched' = 0
     /\ perm' = <<>> /\ negIdx' = <<>> /\ hist' = <<>> /\ inj' = 0
     /\ UNCHANGED pver
@@ -415,7 +441,7 @@ Complete0 ==
 \* C06: update protocol inside a batch and scheduler placement
 Internal == SelectSeq(hist, LAMBDA e : ~IsCb(e) \/ e.cb = First)
 StepProtocol0 ==
-    LET H == SelectSeq(Internal, LAMBDA e : e.k \notin {"EV", "SV", "LG"}) IN
+    LET H == SelectSeq(Internal, LAMBDA e : e.k \notin {"EV", "SV", "LG", "RZ"}) IN
     \A i \in 1..(Len(H) - 1) :
       LET x == H[i] y == H[i + 1] IN
       CASE x.k = "BS" -> y.k = "CG" /\ y.ep = x.ep /\ y.b = x.b
@@ -475,10 +501,14 @@ OwnBasis0 ==
 
 \* C17: records of periodic callbacks = executed epoch ends that are multiples of the period
 EEs == SelectSeq(CbH, LAMBDA e : e.k = "EE")
+\* a dispatch cut short by a raise at list position r completed only the callbacks before r (a raising evaluator
+\* itself leaves no record)
+Reached(i, kind) == ~(pc = "Aborted" /\ hist[Len(hist)].kk = kind /\ hist[Len(hist)].cb <= i)
+EEsFor(i) == IF Reached(i, "EE") THEN EEs ELSE SubSeq(EEs, 1, Len(EEs) - 1)
 OnSchedule0 ==
     \A i \in 1..NCb(cfg) :
       LET d == cfg.cbs[i]
-          due == SelectSeq(EEs, LAMBDA e : e.ep % d.period = 0) IN
+          due == SelectSeq(EEsFor(i), LAMBDA e : e.ep % d.period = 0) IN
       CASE d.t = "eval" ->
              /\ Len(cbs[i]) = Len(Base(i)) + Len(due)
              /\ SubSeq(cbs[i], 1, Len(Base(i))) = Base(i)
@@ -489,7 +519,7 @@ OnSchedule0 ==
              /\ SubSeq(cbs[i], 1, Len(Base(i))) = Base(i)
              /\ \A j \in 1..Len(due) : cbs[i][Len(Base(i)) + j] = due[j].ep
         [] d.t = "saver" ->
-             LET ini == IF d.initial /\ Len(CbH) >= 1 THEN 1 ELSE 0 IN
+             LET ini == IF d.initial /\ Len(CbH) >= 1 /\ Reached(i, "TS") THEN 1 ELSE 0 IN
              /\ Len(cbs[i]) = Len(Base(i)) + ini + Len(due)
              /\ SubSeq(cbs[i], 1, Len(Base(i))) = Base(i)
              /\ (ini = 1 => cbs[i][Len(Base(i)) + 1] = <<-1, CbH[1].pv>>)
@@ -528,7 +558,7 @@ FirstHit0 ==
             \A x \in cfg.startEp..cfg.epochs : ~RuleAt(i, x))
 
 TypeOK0 ==
-    /\ pc \in {"Pick", "Entry", "TS", "SH", "ES", "BS", "CG", "ZG", "AS", "OS", "BE", "SC", "EE", "TE", "Done"}
+    /\ pc \in {"Pick", "Entry", "TS", "SH", "ES", "BS", "CG", "ZG", "AS", "OS", "BE", "SC", "EE", "TE", "Done", "Aborted"}
     /\ stop \in BOOLEAN /\ pver >= 0 /\ sched >= 0 /\ inj \in 0..MaxInj
     /\ CfgOK(cfg)
 
